@@ -13,40 +13,35 @@ import (
 	"verifharness/common"
 )
 
-// yamlCarriable restricts the YAML clause to the values on which the write/read pair of go-yaml
-// (as the command uses it) is symmetric on the unchanged tree. Two asymmetries were found and
-// reported instead of being flagged (see the notes of the result):
-//   - an integer carried as *big.Int is written as a quoted YAML string and reads back as a string;
-//   - a multi-line string that starts with white space is written as a block literal whose
-//     indentation indicator is the --indent setting, not the actual indentation (or, for a leading
-//     tab, without indicator), which the reader rejects.
-func yamlCarriable(v any) bool {
+// blockLiteralTrigger classifies the one YAML asymmetry that is left unrepaired (it lives in the
+// third-party encoder go-yaml): a string or key that contains a newline and starts with white
+// space (space, tab or newline) is written as a block literal whose indentation indicator is the
+// --indent setting rather than the actual indentation (or, for a leading tab, without any
+// indicator), and go-yaml's own reader rejects that text. A failing round trip of a value for
+// which this returns true is reported under the single key yaml:block-literal-leading-space
+// (listed in known-findings.txt); every other mismatch keeps its own per-case key.
+func blockLiteralTrigger(v any) bool {
 	switch v := v.(type) {
-	case *big.Int:
-		return false
 	case string:
-		return yamlString(v)
+		return blockLiteralString(v)
 	case []any:
 		for _, x := range v {
-			if !yamlCarriable(x) {
-				return false
+			if blockLiteralTrigger(x) {
+				return true
 			}
 		}
 	case map[string]any:
 		for k, x := range v {
-			if !yamlString(k) || !yamlCarriable(x) {
-				return false
+			if blockLiteralString(k) || blockLiteralTrigger(x) {
+				return true
 			}
 		}
 	}
-	return true
+	return false
 }
 
-func yamlString(s string) bool {
-	if strings.Contains(s, "\n") && (s[0] == ' ' || s[0] == '\t' || s[0] == '\n') {
-		return false
-	}
-	return true
+func blockLiteralString(s string) bool {
+	return strings.Contains(s, "\n") && (s[0] == ' ' || s[0] == '\t' || s[0] == '\n')
 }
 
 // yamlSame compares the value read back with the value written. Numbers: ints exactly (int /
@@ -85,13 +80,6 @@ func yamlSame(got, v any) string {
 			g = new(big.Int).SetUint64(x)
 		case *big.Int:
 			g = x
-		case float64:
-			// integers beyond 64 bits have no exact YAML carrier in go-yaml: they come back as float64
-			f, _ := new(big.Float).SetInt(want).Float64()
-			if x == f && !want.IsInt64() && !want.IsUint64() {
-				return ""
-			}
-			return fmt.Sprintf("integer %s read back as float %v", want, x)
 		default:
 			return fmt.Sprintf("integer %s read back as %T %v", want, got, got)
 		}
@@ -172,11 +160,35 @@ func yamlRoundTrip(v any, indent *int) (back []any, text []byte, err error) {
 	return back, text, nil
 }
 
+// yamlItems adds values aimed at the YAML clause: big integers at the top level and nested, and
+// the strings of the block-literal class in every position.
+func yamlItems(r *common.Rand) []item {
+	var out []item
+	big1, _ := new(big.Int).SetString("9223372036854775808", 10)
+	big2, _ := new(big.Int).SetString("-340282366920938463463374607431768211457", 10)
+	big3, _ := new(big.Int).SetString("18446744073709551616", 10)
+	for _, z := range []*big.Int{big1, big2, big3} {
+		out = append(out, item{z, "yaml-bigint"}, item{[]any{z}, "yaml-bigint"}, item{map[string]any{"a": z}, "yaml-bigint"},
+			item{[]any{1, []any{map[string]any{"k": []any{z, "x"}}}}, "yaml-bigint"})
+	}
+	for _, s := range []string{"\nxA", " a\nb", "\tq\n", "\n", "\n\n", "  two\nlines\n", "\t\\\n", "\n x", " \n", "\n\u6f22A"} {
+		out = append(out, item{s, "yaml-block-literal"}, item{[]any{s}, "yaml-block-literal"}, item{map[string]any{"k": s}, "yaml-block-literal"},
+			item{map[string]any{s: 1}, "yaml-block-literal"}, item{[]any{[]any{s, 1}, map[string]any{"a": []any{s}}}, "yaml-block-literal"})
+	}
+	// multi-line strings that do NOT start with white space must round-trip
+	for _, s := range []string{"a\nb", "a\n b", "a\n\tb\n", "x\n\ny", "a \n", "a\tb\nc"} {
+		out = append(out, item{s, "yaml-multiline"}, item{[]any{s}, "yaml-multiline"}, item{map[string]any{s: s}, "yaml-multiline"})
+	}
+	_ = r
+	return out
+}
+
 func yamlOracle(ctx *common.Ctx, or *common.Oracle, items []item) {
 	explore := os.Getenv("C12_YAML_EXPLORE") != ""
 	seen := map[string]bool{}
-	outside := 0
+	inClass, inClassFailed := 0, 0
 	classes := map[string]int{}
+	items = append(append([]item(nil), items...), yamlItems(ctx.R)...)
 	for idx, it := range items {
 		v := it.v
 		if !ctx.Thorough && it.class == "alphabet-string-3..6" && idx%4 != 0 {
@@ -185,50 +197,70 @@ func yamlOracle(ctx *common.Ctx, or *common.Oracle, items []item) {
 		if it.class == "flush" || it.class == "long-string" {
 			continue
 		}
-		carriable := yamlCarriable(v)
-		if !carriable && !explore {
-			outside++
-			continue
-		}
-		var ind *int
+		trigger := blockLiteralTrigger(v)
+		indents := []*int{nil}
 		if idx%3 == 1 {
 			n := idx%8 + 1
-			ind = &n
+			indents = []*int{&n}
 		}
-		back, text, err := yamlRoundTrip(v, ind)
-		var why string
-		switch {
-		case err != nil:
-			why = err.Error()
-		case len(back) != 1:
-			why = fmt.Sprintf("%d documents read back", len(back))
-		default:
-			why = yamlSame(back[0], v)
-		}
-		if explore {
-			if why != "" {
-				k := fmt.Sprintf("carriable=%v %s", carriable, strings.SplitN(why, " ", 4)[0])
-				classes[k]++
-				if classes[k] <= 6 {
-					fmt.Fprintf(os.Stderr, "YAML %s: %q | value %s | text %q\n", k, clip(why), clip(common.Canon(v)), clip(string(text)))
-				}
+		if strings.HasPrefix(it.class, "yaml-") {
+			// every --indent setting on the values aimed at this clause
+			for n := 1; n <= 9; n++ {
+				m := n
+				indents = append(indents, &m)
 			}
-			continue
 		}
-		or.Cases++
-		or.Distribution[it.class]++
-		seen[common.Canon(v)] = true
-		if why != "" {
+		for _, ind := range indents {
+			back, text, err := yamlRoundTrip(v, ind)
+			var why string
+			switch {
+			case err != nil:
+				why = err.Error()
+			case len(back) != 1:
+				why = fmt.Sprintf("%d documents read back", len(back))
+			default:
+				why = yamlSame(back[0], v)
+			}
+			indTxt := "default"
+			if ind != nil {
+				indTxt = fmt.Sprint(*ind)
+			}
+			if explore {
+				if why != "" {
+					k := fmt.Sprintf("trigger=%v %s", trigger, strings.SplitN(why, " ", 4)[0])
+					classes[k]++
+					if classes[k] <= 6 {
+						fmt.Fprintf(os.Stderr, "YAML %s indent=%s: %q | value %s | text %q\n", k, indTxt, clip(why), clip(common.Canon(v)), clip(string(text)))
+					}
+				}
+				continue
+			}
+			or.Cases++
+			or.Distribution[it.class]++
+			seen[common.Canon(v)] = true
+			if trigger {
+				inClass++
+			}
+			if why == "" {
+				continue
+			}
+			replay := map[string]any{"value_wire": clip(common.Canon(v)), "yaml_text": clip(string(text)), "what": clip(why), "yaml_indent": indTxt,
+				"cmd": "gojq -n --yaml-output [--indent n] '<value>' > y.yaml; gojq --yaml-input . y.yaml"}
+			if trigger {
+				inClassFailed++
+				ctx.Violate("yaml:block-literal-leading-space",
+					"--yaml-output writes a multi-line string that starts with white space as a block literal that --yaml-input rejects (go-yaml encoder): "+clip(why), replay)
+				continue
+			}
 			key := "yaml:" + common.Canon(v)
 			if len(key) > 200 {
 				key = key[:200]
 			}
-			ctx.Violate(key, "--yaml-output then --yaml-input: "+why,
-				map[string]any{"value_wire": common.Canon(v), "yaml_text": clip(string(text)), "what": why,
-					"cmd": "gojq --yaml-output . <<< JSON | gojq --yaml-input ."})
+			ctx.Violate(key, "--yaml-output then --yaml-input: "+why, replay)
 		}
 	}
 	or.Distinct = len(seen)
-	or.Samples = []string{"strings that look like numbers, booleans, null, dates (\"1\", \"true\", \"null\", \"1.5\", \"-1\")", "nested containers with empty arrays/objects", "floats incl. +-Inf and NaN, integers of every size"}
-	ctx.Res.Notes = append(ctx.Res.Notes, fmt.Sprintf("yaml-roundtrip: %d generated values lie outside the sub-domain on which go-yaml's writer and reader are symmetric (a *big.Int leaf is written as a quoted string; a multi-line string starting with white space is written as a block literal the reader rejects) and were not judged", outside))
+	or.Samples = []string{"9223372036854775808 and -340282366920938463463374607431768211457 as *big.Int, top-level and nested, must read back as the same integers",
+		"strings that look like numbers, booleans, null (\"1\", \"true\", \"null\", \"1.5\"), invalid UTF-8, control characters", "floats incl. +-Inf and NaN; multi-line strings"}
+	ctx.Res.Notes = append(ctx.Res.Notes, fmt.Sprintf("yaml-roundtrip: every generated value is judged (no exclusion); %d cases contain a string of the block-literal class (newline + leading white space), %d of them failed and are reported under the one key yaml:block-literal-leading-space", inClass, inClassFailed))
 }
